@@ -335,6 +335,9 @@ func (r *Recomposer) recomp(v any, rv reflect.Value) {
 		if et.Kind() == reflect.Ptr {
 			et = et.Elem()
 			for i := 0; i < size; i++ {
+				if va[i] == nil { // leave the nil pointer, same as for struct fields
+					continue
+				}
 				ev := reflect.New(et)
 				r.recomp(va[i], ev)
 				av.Index(i).Set(ev)
@@ -395,6 +398,10 @@ func (r *Recomposer) recomp(v any, rv reflect.Value) {
 		case et.Kind() == reflect.Ptr:
 			et = et.Elem()
 			for k, m := range vm {
+				if m == nil { // keep the member with a nil pointer
+					rv.SetMapIndex(reflect.ValueOf(k), reflect.Zero(rv.Type().Elem()))
+					continue
+				}
 				ev := reflect.New(et)
 				r.recomp(m, ev)
 				rv.SetMapIndex(reflect.ValueOf(k), ev)
